@@ -35,7 +35,7 @@ def random_cases(rng, count):
         n = rng.randint(2, rng.choice([8, 64]))
         c = {"fn": "pipeline", "strategy": s, "x": [R(v) for v in xs], "y": [R(v) for v in ys], "n": n,
              "append": rng.choice(["none", "periodic", "last"]), "trule": rng.choice(["trapezoid", "rectangle"]),
-             "container": rng.choice(["array", "list", "int"])}
+             "container": rng.choice(["array", "list", "int", "series"])}
         c.update(params(rng, s, n, exact=False))
         if rng.random() < 0.6:
             c["malpha_f"] = rng.uniform(0.1, 1.0) if rng.random() < 0.7 else rng.uniform(1.0, 4.0)
